@@ -275,6 +275,35 @@ fn eval(stream: &[Sym], mode: Mode, posn: Pos, scratch: &Scratch) -> Vec<Viol> {
         .collect()
 }
 
+/// What a run with verbosity flags must share with the run without them: success or failure, stdout,
+/// and - unless the flags lower the verbosity - the `Skipped X/Y` report and the site a failure names.
+fn verbosity_ok(base: &Out, o: &Out, flags: &str) -> bool {
+    if !(o.ok() == base.ok() && o.stdout == base.stdout && (o.ok() || o.diagnosed_error())) {
+        return false;
+    }
+    let quiet = flags.matches('q').count();
+    let verbose = flags.matches("-v").count() + flags.matches("vv").count();
+    if quiet > 0 && verbose == 0 {
+        return true;
+    }
+    if flags.contains('q') {
+        return true;
+    }
+    let (bs, os) = (base.stderr_str(), o.stderr_str());
+    if parse_skipped(&bs) != parse_skipped(&os) {
+        return false;
+    }
+    if !base.ok() {
+        // the site named by the failure: the first quoted contig:position
+        let named = |s: &str| -> Option<String> { s.split('\'').find(|t| t.contains(':') && t.rsplit(':').next().map_or(false, |p| !p.is_empty() && p.chars().all(|c| c.is_ascii_digit()))).map(|t| t.to_string()) };
+        let last_error = |s: &str| -> String { s.lines().filter(|l| l.to_lowercase().contains("error")).last().unwrap_or("").to_string() };
+        if named(&last_error(&bs)) != named(&last_error(&os)) {
+            return false;
+        }
+    }
+    true
+}
+
 fn eval_cohort(n: usize, p: usize, scratch: &Scratch) -> Option<Viol> {
     eval_cohort_records(n, p, 8, scratch)
 }
@@ -448,6 +477,21 @@ pub fn run(tier: Tier) -> i32 {
         exhaustive: true,
         extra: vec![("depth_bound".into(), J::u(extra_len))],
     });
+    {
+        let mut sp: Vec<(Vec<String>, Vec<u8>)> = Vec::new();
+        for st in streams.iter().filter(|s| s.len() <= 2) {
+            for m in modes {
+                let mut a: Vec<String> = vec!["create".into(), "-s".into(), SAMPLES.into()];
+                match m {
+                    Mode::Default => {}
+                    Mode::Strict => a.push("--strict".into()),
+                    Mode::Project => a.extend(["--project-shape".to_string(), "3,3".to_string(), "--precision".to_string(), "9".to_string()]),
+                }
+                sp.push((a, vcf_for(st, Pos::Unique).into_bytes()));
+            }
+        }
+        super::spelling_part(&mut rep, "C10", "every stream of length <= 2 in the three modes", &sp, &scratch);
+    }
     // long streams: more than 65 536 records (counters must not wrap, nothing may depend on the length)
     {
         let n_long = tier.pick(70_000usize, 300_000usize);
@@ -482,7 +526,7 @@ pub fn run(tier: Tier) -> i32 {
     // strict-mode failure must not depend on whether the skipped site would be logged)
     {
         let short: Vec<usize> = (0..streams.len()).filter(|&i| streams[i].len() <= 2).collect();
-        let flags = ["-q", "-qq", "-v", "-vv"];
+        let flags = ["-q", "-qq", "-v", "-vv", "-vvv", "-vvvv", "-v -v -v", "--verbose --verbose --verbose --verbose", "-vv --verbose", "-vvvvvvvv"];
         let mut vj: Vec<(usize, Mode, usize)> = Vec::new();
         for &i in &short {
             for m in modes {
@@ -502,9 +546,9 @@ pub fn run(tier: Tier) -> i32 {
                 Mode::Project => args.extend(["--project-shape", "3,3", "--precision", "9"]),
             }
             let base = run_sfs(&args, Stdin::Bytes(vcf.as_bytes()), &scratch);
-            args.push(flags[f]);
+            args.extend(flags[f].split(' '));
             let o = run_sfs(&args, Stdin::Bytes(vcf.as_bytes()), &scratch);
-            if o.ok() == base.ok() && o.stdout == base.stdout && (o.ok() || o.diagnosed_error()) {
+            if verbosity_ok(&base, &o, flags[f]) {
                 None
             } else {
                 Some((
@@ -521,7 +565,7 @@ pub fn run(tier: Tier) -> i32 {
             name: "cli: verbosity flags".into(),
             evaluations: vj.len() as u64,
             nontrivial: vj.len() as u64,
-            note: format!("{} streams of length <= 2 x 3 modes x {{-q, -qq, -v, -vv}}: same success / failure and byte-identical stdout as at default verbosity", short.len()),
+            note: format!("{} streams of length <= 2 x 3 modes x {} spellings of the verbosity flags (up to eight -v, clustered, repeated, long): same success / failure and byte-identical stdout as at default verbosity; with raised verbosity also the same `Skipped X/Y` report and the same site named by a failure", short.len(), flags.len()),
             exhaustive: true,
             extra: vec![],
         });
@@ -684,9 +728,9 @@ pub fn replay(case: &J) -> Option<Vec<String>> {
             _ => {}
         }
         let base = run_sfs(&args, Stdin::Bytes(vcf.as_bytes()), &scratch);
-        args.push(&flag);
+        args.extend(flag.split(' '));
         let o = run_sfs(&args, Stdin::Bytes(vcf.as_bytes()), &scratch);
-        return Some(if o.ok() == base.ok() && o.stdout == base.stdout { vec![] } else { vec![format!("C10|cli|verbosity-changes-result :: with {flag}: {} {:?}; without: {} {:?}", o.status_str(), o.stdout_str(), base.status_str(), base.stdout_str())] });
+        return Some(if verbosity_ok(&base, &o, &flag) { vec![] } else { vec![format!("C10|cli|verbosity-changes-result :: with {flag}: {} {:?}; without: {} {:?}", o.status_str(), o.stdout_str(), base.status_str(), base.stdout_str())] });
     }
     if case.get("kind").and_then(|k| k.as_str()) == Some("c10-wide") {
         let scratch = Scratch::new("c10r");
